@@ -6,7 +6,7 @@
 //@include calltrace.inc
 //@include calltrace_stubs.inc
 #define H CPP/Clipper2Lib/include/clipper2/clipper.h
-#define ASG_LOG __CPROVER_object_whole(g_cnt), __CPROVER_object_whole(g_seq), __CPROVER_object_whole(g_i), __CPROVER_object_whole(g_d), g_n
+#define ASG_LOG __CPROVER_object_whole(g_cnt), __CPROVER_object_whole(g_ev), g_n
 #define EMPTYV(v) ((v).tok == 0 && (v).size == 0)
 #define PREC_FIRST (C_(FN_CHECKPREC) == 1 && I_(FN_CHECKPREC,0,0) == (long)precision && SEQ(FN_CHECKPREC,0) == 0)
 #define PREC_ERR (I_(FN_CHECKPREC,0,2) != 0)
